@@ -258,6 +258,44 @@ Proof.
     + apply IH; assumption.
 Qed.
 
+(** ** [domain_analysis.ExprTupleKey]: (integrand, metadata) keys, compared lexicographically
+
+    [ExprTupleKey.__lt__] compares the expressions with [cmp_expr] and, when that answers 0, the canonicalised
+    metadata with Python's [<].  The metadata order is a Section variable: any comparator obeying the two laws
+    (tuples of strings / numbers under Python's lexicographic [<] do).  The resulting key comparator obeys the
+    same two laws, so the generic theorems apply to [sorted(by_cdid.values(), key=ExprTupleKey)]. *)
+Section TupleKey.
+  Variable M : Type.
+  Variable cm : M -> M -> comparison.
+  Hypothesis cm_opp : forall a b, cm b a = CompOpp (cm a b).
+  Hypothesis cm_t3 : forall a b d, t3 (cm a b) (cm b d) (cm a d) = true.
+
+  Definition key_cmp (x y : tree * M) : comparison := then_ (cmpS (fst x) (fst y)) (cm (snd x) (snd y)).
+  (** what [__lt__] answers *)
+  Definition key_lt (x y : tree * M) : bool := is_lt (key_cmp x y).
+
+  Lemma key_cmp_opp x y : key_cmp y x = CompOpp (key_cmp x y).
+  Proof. unfold key_cmp. rewrite then_opp, <- (C29_cmp_antisym true), <- cm_opp. reflexivity. Qed.
+
+  Lemma key_cmp_t3 x y z : t3 (key_cmp x y) (key_cmp y z) (key_cmp x z) = true.
+  Proof. unfold key_cmp. apply t3_then; [apply C29_cmpS_consistent | intros _ _; apply cm_t3]. Qed.
+
+  Theorem C29_tuple_key_sort_order_independent : forall (sort : list (tree * M) -> list (tree * M)) l l',
+    (forall m, Permutation m (sort m)) -> (forall m, StronglySorted (le _ key_cmp) (sort m)) ->
+    Permutation l l' -> members_dist _ key_cmp l -> sort l = sort l'.
+  Proof.
+    intros sort l l' P S. apply C29_sort_order_independent_gen; try assumption.
+    - exact key_cmp_opp.
+    - exact key_cmp_t3.
+  Qed.
+
+  (** keys are distinguishable as soon as the integrands are, or the metadata are *)
+  Lemma key_cmp_Eq x y : key_cmp x y = Eq <-> cmpS (fst x) (fst y) = Eq /\ cm (snd x) (snd y) = Eq.
+  Proof. unfold key_cmp. apply then_eq_Eq. Qed.
+End TupleKey.
+
+Print Assumptions C29_tuple_key_sort_order_independent.
+
 (** non-vacuity: three distinguishable leaves, all six orders sort to one list *)
 Example C29_isort_example :
   let a := Leaf 3 (TCoef 5 0) in let b := Leaf 3 (TCoef 2 0) in let d := Leaf 7 (TCoef 1 0) in
